@@ -971,9 +971,12 @@ def run_probes(d: str, n: int, seed: int, only: str | None = None, module: str =
 
 
 MAX_DEATHS = 6
+FAMILY_N = {"quick": 10, "thorough": 40}
 
 
 # =========================================================================== main
+FAMILIES = ("c06prim", "c06wrap")
+MIN_FAMILY = {"c06prim": 200, "c06wrap": 80}
 ALWAYS_FULL = ("run-generators.test", "run-exceptions.test")
 # programs outside ALWAYS_FULL in which a known finding lives: always part of the quick tier
 MUST = {("run-async.test", "testBorrowedFinalAttrAcrossAsyncComprehension")}
@@ -1039,7 +1042,7 @@ def main(argv: list[str]) -> int:
     # ---- 1. dynamic binding: build the probe extension(s) in the background
     opts = ["0"] if tier == "quick" else ["0", "3"]
     ngen = {"0": 40 if tier == "quick" else 240, "3": 60}
-    build_pool = ThreadPoolExecutor(len(opts))
+    build_pool = ThreadPoolExecutor(3 * len(opts))
     builds = {o: build_pool.submit(build_probes, os.path.join(root, "dyn-O" + o), o, ngen[o]) for o in opts}
 
     # ---- 2. IR of the corpus from the real pipeline of the working tree
@@ -1051,9 +1054,18 @@ def main(argv: list[str]) -> int:
         v.notes.append("C06_ONLY=%s: corpus restricted, development run" % only)
     ex = export_corpus(cases, os.path.join(root, "exp"), nproc=14)
     funcs = ex["funcs"]
-    with ProcessPoolExecutor(3, initializer=_worker_init) as pool:
+    with ProcessPoolExecutor(5, initializer=_worker_init) as pool:
+        fam_f = [pool.submit(export_family, (root, w)) for w in FAMILIES]
         pe = list(pool.map(export_probes, [(root, "c06probes", 0), (root, "c06gen", ngen["0"]), (root, "c06def", 0)]))
-    pex = dict(funcs=pe[0]["funcs"] + pe[1]["funcs"] + pe[2]["funcs"])
+        fams = {w: f.result() for w, f in zip(FAMILIES, fam_f)}
+    pex = dict(funcs=pe[0]["funcs"] + pe[1]["funcs"] + pe[2]["funcs"] + [f for w in FAMILIES for f in fams[w]["funcs"]])
+    fam_desc = {c["name"]: (w, c["desc"]) for w in FAMILIES for c in fams[w]["cases"]}
+    for w in FAMILIES:
+        if fams[w]["nfuncs"] < MIN_FAMILY[w] or len(fams[w]["cases"]) < 5 * MIN_FAMILY[w]:
+            raise MachineryError("family %s shrank to %d functions / %d cases (dropped: %s)"
+                                 % (w, fams[w]["nfuncs"], len(fams[w]["cases"]), fams[w]["dropped"][:5]))
+    fam_builds = {(o, w): build_pool.submit(build_family, os.path.join(root, "dyn-O" + o), o, w, fams[w]["source"], fams[w]["cases"])
+                  for o in opts for w in FAMILIES}
     n_corpus = len(funcs)
     print("exported %d function records (%d ops) from %d/%d programs in %.0fs; %d programs did not compile"
           % (n_corpus, sum(f["nops"] for f in funcs), ex["stats"]["compiled"], ex["stats"]["cases"],
@@ -1145,6 +1157,8 @@ def main(argv: list[str]) -> int:
         if stage == "final" and fn not in cut:
             exits[fn] = kinds
     dyn_compared = 0
+    noisy: list[str] = []
+    result_diffs: dict[str, str] = {}
     def_index = definedness_index()
     other_diffs: list[str] = []
     dyn_samples: list[Any] = []
@@ -1158,6 +1172,14 @@ def main(argv: list[str]) -> int:
             # the IR is already known to be broken; that the C compiler rejects the result is a consequence
             v.notes.append("dynamic binding skipped at -O%s: %s" % (o, str(e)[:300]))
             print("NOTE: dynamic binding skipped at -O%s (build failed, violations already reported)" % o, flush=True)
+            continue
+        try:
+            for w in FAMILIES:
+                fam_builds[(o, w)].result()
+        except MachineryError as e:
+            if not v.violations:
+                raise
+            v.notes.append("family build failed at -O%s: %s" % (o, str(e)[:300]))
             continue
         d = os.path.join(root, "dyn-O" + o)
         n = 30 if tier == "quick" else 200
@@ -1174,10 +1196,19 @@ def main(argv: list[str]) -> int:
             raise MachineryError("generated-family runner produced only %d results" % len(gcomp["results"]))
         if len(dcomp["results"]) < 12 * len(def_index) and not dcomp["died_in"]:
             raise MachineryError("definedness-family runner produced only %d results" % len(dcomp["results"]))
-        for extra_c, extra_b in ((gcomp, gbase), (dcomp, dbase)):
+        fam_runs = []
+        for w in FAMILIES:
+            fc = run_probes(d, FAMILY_N[tier], seed, module=w)
+            fb = run_probes(os.path.join(d, "interp"), 4, seed, module=w)
+            if fb["died_in"] or fb["rc"] != 0:
+                raise MachineryError("interpreted baseline run of %s failed: %s %s" % (w, fb["died_in"], fb["stderr"]))
+            if len(fc["results"]) + len(fc["deaths"]) < 0.9 * len(fams[w]["cases"]):
+                raise MachineryError("family %s: only %d of %d cases produced a result" % (w, len(fc["results"]), len(fams[w]["cases"])))
+            fam_runs.append((fc, fb))
+        for extra_c, extra_b in [(gcomp, gbase), (dcomp, dbase)] + fam_runs:
             comp["results"].update(extra_c["results"])
             base["results"].update(extra_b["results"])
-        deaths = [comp, gcomp, dcomp]
+        deaths = [comp, gcomp, dcomp] + [fc for fc, _ in fam_runs]
         for iso in ISOLATED_CASES:     # cases that may kill the process run in a child of their own
             ci = run_probes(d, 3, seed, only=iso)
             bi = run_probes(os.path.join(d, "interp"), 3, seed, only=iso)
@@ -1189,6 +1220,8 @@ def main(argv: list[str]) -> int:
         for cd in deaths:
             for dd in cd["deaths"]:
                 case = family_key(dd["case"].split("/")[0], def_index)
+                if case in fam_desc:
+                    case = "%s:%s" % (fam_desc[case][0][3:], fam_desc[case][1])
                 dyn_compared += 1
                 v.violation("dyn:crash:" + case, {"kind": "dyn", "case": dd["case"].split("/"), "opt": o, "rc": dd["rc"]},
                             "the child running the compiled probe module died (exit %s) during case %s [%s] at -O%s (CPython runs the same case fine): %s"
@@ -1200,10 +1233,26 @@ def main(argv: list[str]) -> int:
             rb = base["results"].get(ck)
             if rb is None:
                 raise MachineryError("baseline has no result for %s" % (ck,))
+            in_family = rc_["case"] in fam_desc
             if rb["delta"] != [0, 0]:
+                if in_family:     # the call itself keeps the object (interned attribute name, stored in the receiver ...)
+                    noisy.append("%s/%s" % ck)
+                    continue
                 raise MachineryError("harness noise: interpreted baseline changes reference counts in %s: %s" % (ck, rb))
             dyn_compared += 1
             case = rc_["case"]
+            if in_family:
+                w, desc = fam_desc[case]
+                if max(abs(x) for x in rc_["delta"]) < rc_["n"] // 2:
+                    rc_ = dict(rc_, delta=[0, 0])      # a one-off (cache, interning), not a per-call imbalance
+                case = "%s:%s:%s" % (w[3:], desc, "+".join(rc_["outs"])) if w == "c06prim" else "%s:%s" % (w[3:], desc)
+                if not rc_["typed"] and (rc_["outs"] != rb["outs"] or rc_.get("value") != rb.get("value")):
+                    if w == "c06wrap" and ("TypeError" in rc_["outs"]) != ("TypeError" in rb["outs"]):
+                        v.violation("dyn:binding:" + case, {"kind": "dyn", "case": ck, "opt": o, "compiled": rc_["outs"], "cpython": rb["outs"]},
+                                    "wrapper of %s: compiled %s, CPython %s (argument binding must raise TypeError exactly where CPython does)"
+                                    % (case, rc_["outs"], rb["outs"]))
+                    else:
+                        result_diffs[case] = "%s %s vs CPython %s %s" % (rc_["outs"], (rc_.get("value") or "")[:60], rb["outs"], (rb.get("value") or "")[:60])
             if len(dyn_samples) < 3 and rc_["outs"] != ["ret"]:
                 dyn_samples.append({"case": "%s/%s" % ck, "opt": "O" + o, "compiled": rc_["outs"], "cpython": rb["outs"],
                                     "refcount_delta_after_%d_calls" % n: rc_["delta"],
@@ -1227,7 +1276,9 @@ def main(argv: list[str]) -> int:
             # (UnboundLocalError / NameError / AttributeError count as one class: mypyc keeps generator
             # locals in attributes of the environment object and reports them with AttributeError)
             undef = {"UnboundLocalError", "AttributeError", "NameError"}
-            if not rc_["typed"] and bool(set(rc_["outs"]) & undef) != bool(set(rb["outs"]) & undef):
+            if in_family:
+                pass      # the families compare results / binding errors themselves (above)
+            elif not rc_["typed"] and bool(set(rc_["outs"]) & undef) != bool(set(rb["outs"]) & undef):
                 v.violation("dyn:undefined-read:" + family_key(rc_["case"], def_index),
                             {"kind": "dyn", "case": ck, "opt": o, "compiled": rc_["outs"], "cpython": rb["outs"]},
                             "compiled %s: outcomes %s, CPython: %s (an undefined local / attribute must raise as in CPython)"
@@ -1236,7 +1287,7 @@ def main(argv: list[str]) -> int:
                 other_diffs.append("%s/%s: %s vs %s" % (ck[0], ck[1], rc_["outs"], rb["outs"]))
             # the machine's prediction of how the function can be left
             ek = exits.get("native." + rc_["fn"])
-            if ek is not None:
+            if ek is not None and not (in_family and fam_desc[rc_["case"]][0] == "c06wrap"):
                 for out in rc_["outs"]:
                     if rc_["typed"] and out == "TypeError":
                         continue   # may come from the argument conversion of the Python-level wrapper, not the body
@@ -1273,6 +1324,18 @@ def main(argv: list[str]) -> int:
         "definedness_family": "%d local types x %d shapes, each x 3 callee behaviours x 2 flags x 2 object kinds"
                               % (len(DEF_TYPES), len(DEF_SHAPES)),
         "behaviour_differences_outside_property": other_diffs[:10],
+        "primitive_contract_family": {
+            "functions": fams["c06prim"]["nfuncs"], "cases": len(fams["c06prim"]["cases"]),
+            "registry_c_functions_targeted": len(fams["c06prim"]["info"]["registry_c_functions"]),
+            "registry_c_functions_reached_in_ir": len(set(fams["c06prim"]["info"]["registry_c_functions"]) & set(fams["c06prim"]["c_functions_used"])),
+            "registry_c_functions_not_reached": sorted(set(fams["c06prim"]["info"]["registry_c_functions"]) - set(fams["c06prim"]["c_functions_used"])),
+            "distinct_c_functions_called": len(fams["c06prim"]["c_functions_used"]),
+            "registry_entries_not_expressible": fams["c06prim"]["info"]["skipped"],
+            "templates_rejected_by_the_front_end": fams["c06prim"]["dropped"]},
+        "wrapper_family": {"functions_and_methods": fams["c06wrap"]["nfuncs"], "cases": len(fams["c06wrap"]["cases"])},
+        "family_cases_skipped_as_self_retaining": len(noisy),
+        "result_differences_to_cpython_outside_property": dict(list(sorted(result_diffs.items()))[:25]),
+        "result_differences_to_cpython_count": len(result_diffs),
         "probe_functions_model_checked": len(pex["funcs"]),
         "search_depth": res["depth"],
         "samples": [{"function": sample_f["prog"] + " " + sample_f["fn"] + " [" + sample_f["stage"] + "]",
